@@ -163,5 +163,286 @@ theorem wStar_fixed_point (t : OctaT) (hwf : t.WF) (v : Int × Int × Int)
     simp only [h1, h2, h3, if_true, if_false, Prod.mk.injEq] <;> push_cast <;>
     refine ⟨trivial, ?_, ?_⟩ <;> field_simp <;> ring
 
+theorem norm_sq_ge_third_R (p1 p2 p3 : ℝ) (h : |p1| + |p2| + |p3| = 1) :
+    1 ≤ 3 * (p1 ^ 2 + p2 ^ 2 + p3 ^ 2) := by
+  have h' : (|p1| + |p2| + |p3|) ^ 2 ≤ 3 * (|p1| ^ 2 + |p2| ^ 2 + |p3| ^ 2) := by
+    nlinarith [sq_nonneg (|p1| - |p2|), sq_nonneg (|p1| - |p3|), sq_nonneg (|p2| - |p3|)]
+  rw [h, sq_abs, sq_abs, sq_abs] at h'
+  linarith
+
+/-- a point `a` of the unit octahedron and a vector `b` at squared distance ≤ `E < 1/3`:
+    the angle is at most `β` whenever `3E(1+β²) ≤ β²` -/
+theorem angle_close (a1 a2 a3 b1 b2 b3 E β : ℝ) (ha : |a1| + |a2| + |a3| = 1)
+    (hE : (a1 - b1) ^ 2 + (a2 - b2) ^ 2 + (a3 - b3) ^ 2 ≤ E) (hE3 : E < 1/3) (hβ : 0 < β)
+    (hS : 3 * E * (1 + β ^ 2) ≤ β ^ 2) :
+    angle (vec3 a1 a2 a3) (vec3 b1 b2 b3) ≤ β ∧ 0 < b1 ^ 2 + b2 ^ 2 + b3 ^ 2 := by
+  have hN := norm_sq_ge_third_R a1 a2 a3 ha
+  obtain ⟨c1, c2⟩ := close_vectors a1 a2 a3 b1 b2 b3 E hE
+  have hD := c2 (by linarith)
+  have hcs := cs3 a1 a2 a3 b1 b2 b3
+  have hE0 : 0 ≤ E := le_trans (by positivity) hE
+  have hVn : 0 ≤ b1 ^ 2 + b2 ^ 2 + b3 ^ 2 := by positivity
+  have hV : 0 < b1 ^ 2 + b2 ^ 2 + b3 ^ 2 := by
+    rcases hVn.lt_or_eq with h | h
+    · exact h
+    · rw [← h, mul_zero] at hcs
+      nlinarith
+  refine ⟨?_, hV⟩
+  rw [angle_vec3]
+  apply arccos_le_gen _ _ _ (3 * E) β hβ (by linarith) hV hD _ hcs hS
+  have : E * (b1 ^ 2 + b2 ^ 2 + b3 ^ 2)
+      ≤ 3 * E * ((a1 ^ 2 + a2 ^ 2 + a3 ^ 2) * (b1 ^ 2 + b2 ^ 2 + b3 ^ 2)) := by
+    have h1 : 0 ≤ E * (b1 ^ 2 + b2 ^ 2 + b3 ^ 2) := mul_nonneg hE0 hVn
+    nlinarith
+  linarith
+
+section dec
+variable (ops : OctaNormOps ℝ) {u : ℝ} (hm : DecModel ops u)
+include hm
+
+/-- **Decoder**: the decoded vector encloses an angle of at most `144u` with the integer vector
+    whose coordinates are decoded -/
+theorem decoder_angle (hu0 : 0 < u) (hu : u ≤ 1/16384) (t : OctaT) (hwf : t.WF)
+    (v : Int × Int × Int) (hsum : iabs v.1 + iabs v.2.1 + iabs v.2.2 = t.center) :
+    let dec := @coordsToUnitVectorG ℝ ops t.maxV (intVecToCoords t v)
+    angle (vec3 v.1 v.2.1 v.2.2) (vec3 dec.1 dec.2.1 dec.2.2) ≤ 144 * u ∧
+    |dec.1 ^ 2 + dec.2.1 ^ 2 + dec.2.2 ^ 2 - 1| ≤ 10 * u := by
+  intro dec
+  have hu' : u ≤ 1/1024 := by linarith
+  obtain ⟨hg, _⟩ := intVecToCoords_inGrid_canonical t hwf v hsum
+  have hfp := wStar_fixed_point t hwf v hsum
+  obtain ⟨hV, _, hc1, _⟩ := hwf
+  unfold inGrid at hg
+  rw [hV] at hg
+  obtain ⟨s0, s1, t0, t1⟩ := hg
+  have hdec : dec = @coordsToUnitVectorG ℝ ops (2 * t.center) (intVecToCoords t v) := by
+    show @coordsToUnitVectorG ℝ ops t.maxV _ = _; rw [hV]
+  obtain ⟨e1, e2, e3⟩ := octaVec_err ops hm hu0.le hu' t.center hc1 _ _ s0 s1 t0 t1
+  obtain ⟨d, c1, c2, c3, hd, k1, k2, k3, edec, hlen⟩ :=
+    decoded_unit ops hm hu0.le hu' t.center hc1 _ _ s0 s1 t0 t1
+  rw [show ((intVecToCoords t v).1, (intVecToCoords t v).2) = intVecToCoords t v from rfl] at e1 e2 e3 edec hlen
+  rw [hfp] at e1 e2 e3
+  simp only at e1 e2 e3
+  set c : ℝ := (t.center : ℝ) with hcdef
+  have hc0 : (0:ℝ) < c := by rw [hcdef]; exact_mod_cast (by omega : (0:Int) < t.center)
+  obtain ⟨w1, w2, w3, hw⟩ : ∃ w1 w2 w3 : ℝ,
+      @octaVecG ℝ ops.toOctaDecOps (2 * t.center) (intVecToCoords t v) = (w1, w2, w3) := ⟨_, _, _, rfl⟩
+  rw [hw] at e1 e2 e3 edec
+  simp only at e1 e2 e3 edec
+  -- |g|₁ = 1
+  have hg1 : |(v.1:ℝ) / c| + |(v.2.1:ℝ) / c| + |(v.2.2:ℝ) / c| = 1 := by
+    rw [abs_div, abs_div, abs_div, abs_of_pos hc0, ← iabs_castR, ← iabs_castR, ← iabs_castR,
+      ← add_div, ← add_div, div_eq_one_iff_eq (ne_of_gt hc0), hcdef]
+    exact_mod_cast hsum
+  have gb1 : |(v.1:ℝ) / c| ≤ 1 := by
+    have := abs_nonneg ((v.2.1:ℝ) / c); have := abs_nonneg ((v.2.2:ℝ) / c); linarith
+  have gb2 : |(v.2.1:ℝ) / c| ≤ 1 := by
+    have := abs_nonneg ((v.1:ℝ) / c); have := abs_nonneg ((v.2.2:ℝ) / c); linarith
+  have gb3 : |(v.2.2:ℝ) / c| ≤ 1 := by
+    have := abs_nonneg ((v.1:ℝ) / c); have := abs_nonneg ((v.2.1:ℝ) / c); linarith
+  -- b_i = w_i (1 + c_i) is within (24.1, 56.1, 56.1) u of g_i
+  have step : ∀ (w g δ B : ℝ), |w - g| ≤ B * u → |g| ≤ 1 → |δ| ≤ u → B ≤ 56 →
+      |g - w * (1 + δ)| ≤ (B + 11/10) * u := by
+    intro w g δ B h1 h2 h3 hB
+    obtain ⟨a1, a2⟩ := abs_le.mp h1
+    obtain ⟨b1, b2⟩ := abs_le.mp h2
+    have hBu : B * u ≤ 56 * u := mul_le_mul_of_nonneg_right hB hu0.le
+    have hw : |w| ≤ 11/10 := by rw [abs_le]; constructor <;> linarith
+    obtain ⟨m1, m2⟩ := abs_le.mp (mul_small hw h3)
+    have : g - w * (1 + δ) = -(w - g) - w * δ := by ring
+    rw [this, abs_le]; constructor <;> linarith
+  have f1 := step w1 _ c1 23 e1 gb1 k1 (by norm_num)
+  have f2 := step w2 _ c2 55 e2 gb2 k2 (by norm_num)
+  have f3 := step w3 _ c3 55 e3 gb3 k3 (by norm_num)
+  have hE : ((v.1:ℝ) / c - w1 * (1 + c1)) ^ 2 + ((v.2.1:ℝ) / c - w2 * (1 + c2)) ^ 2
+      + ((v.2.2:ℝ) / c - w3 * (1 + c3)) ^ 2 ≤ 6876 * u ^ 2 := by
+    have q1 : ((v.1:ℝ) / c - w1 * (1 + c1)) ^ 2 ≤ ((23 + 11/10) * u) ^ 2 := by
+      rw [← sq_abs]; exact pow_le_pow_left₀ (abs_nonneg _) f1 2
+    have q2 : ((v.2.1:ℝ) / c - w2 * (1 + c2)) ^ 2 ≤ ((55 + 11/10) * u) ^ 2 := by
+      rw [← sq_abs]; exact pow_le_pow_left₀ (abs_nonneg _) f2 2
+    have q3 : ((v.2.2:ℝ) / c - w3 * (1 + c3)) ^ 2 ≤ ((55 + 11/10) * u) ^ 2 := by
+      rw [← sq_abs]; exact pow_le_pow_left₀ (abs_nonneg _) f3 2
+    nlinarith [sq_nonneg u]
+  have hu2 : u ^ 2 ≤ (1/16384) ^ 2 := pow_le_pow_left₀ hu0.le hu 2
+  obtain ⟨hang, hVb⟩ := angle_close _ _ _ _ _ _ (6876 * u ^ 2) (144 * u) hg1 hE (by nlinarith)
+    (by positivity) (by nlinarith [sq_nonneg u])
+  refine ⟨?_, ?_⟩
+  · have ev : vec3 v.1 v.2.1 v.2.2 = c • vec3 ((v.1:ℝ) / c) ((v.2.1:ℝ) / c) ((v.2.2:ℝ) / c) := by
+      rw [← vec3_smul]; congr 1 <;> field_simp
+    have ed : vec3 dec.1 dec.2.1 dec.2.2
+        = d • vec3 (w1 * (1 + c1)) (w2 * (1 + c2)) (w3 * (1 + c3)) := by
+      rw [← vec3_smul, hdec, edec]; congr 1 <;> ring
+    rw [ev, ed, angle_smul_left_of_pos _ _ hc0, angle_smul_right_of_pos _ _ hd]
+    exact hang
+  · rw [hdec]; exact hlen
+
+end dec
+
+section enc
+variable (opsE : DoubleOps ℚ) {uE : ℚ} (hmE : DoubleModel opsE uE)
+include hmE
+
+/-- **Encoder** (rationals): the integer vector has L1 norm `c` and is within
+    `(1/2+ε, 1/2+ε, 1+2ε)`, `ε = 8·c·uE`, of the scaled projection `c·n/|n|₁` -/
+theorem encoder_facts (hu0 : 0 ≤ uE) (hu : uE ≤ 1 / 2 ^ 40) (t : OctaT) (hwf : t.WF)
+    (hcu : (t.center : ℚ) * uE ≤ 1/512) (n1 n2 n3 : ℚ) (hn : 0 < |n1| + |n2| + |n3|) :
+    let r := @floatVecRoundG ℚ opsE t.center n1 n2 n3
+    let v := fixIntVec t r.1 r.2.1 r.2.2
+    iabs v.1 + iabs v.2.1 + iabs v.2.2 = t.center ∧
+    |n1 / (|n1| + |n2| + |n3|) * t.center - v.1| ≤ 1/2 + 8 * t.center * uE ∧
+    |n2 / (|n1| + |n2| + |n3|) * t.center - v.2.1| ≤ 1/2 + 8 * t.center * uE ∧
+    |n3 / (|n1| + |n2| + |n3|) * t.center - v.2.2| ≤ 1 + 2 * (8 * t.center * uE) := by
+  intro r v
+  obtain ⟨_, _, hc1, hc29⟩ := hwf
+  have hu' : uE ≤ 1/1024 := by
+    have : (1:ℚ) / 2 ^ 40 ≤ 1/1024 := by norm_num
+    linarith
+  have hsumv : iabs v.1 + iabs v.2.1 + iabs v.2.2 = t.center :=
+    fixIntVec_abs_sum t r.1 r.2.1 r.2.2
+      (octa_round_in_range opsE uE hu0 hu hmE t.center hc1 hc29 n1 n2 n3)
+  obtain ⟨hA, hB, hz⟩ := float_round_close opsE hmE hu0 hu' t.center hc1 n1 n2 n3 hn
+  set S := |n1| + |n2| + |n3| with hS
+  set c : ℚ := (t.center : ℚ) with hcdef
+  have hc0 : (0:ℚ) < c := by rw [hcdef]; exact_mod_cast (by omega : (0:Int) < t.center)
+  have hsum : |n1 / S * c| + |n2 / S * c| + |n3 / S * c| = (t.center : ℚ) := by
+    rw [abs_mul, abs_mul, abs_mul, abs_div, abs_div, abs_div, abs_of_pos hc0, abs_of_pos hn]
+    have : (|n1| + |n2| + |n3|) / S = 1 := by rw [← hS]; exact div_self (ne_of_gt hn)
+    calc |n1| / S * c + |n2| / S * c + |n3| / S * c = ((|n1| + |n2| + |n3|) / S) * c := by ring
+      _ = c := by rw [this, one_mul]
+  have hε0 : (0:ℚ) ≤ 8 * c * uE := by positivity
+  have hε : 8 * c * uE < 1/2 := by nlinarith
+  obtain ⟨d1, d2, d3⟩ := grid_distance_eps t r.1 r.2.1 _ _ _ (8 * c * uE) r.2.2 hε0 hε hA hB hsum hz
+  exact ⟨hsumv, d1, d2, d3⟩
+
+end enc
+
+/-- polynomial fact behind the encoder angle: `(1+2ε)²(1+(1+5ε)²) ≤ 2(1+5ε)²` for `0 ≤ ε ≤ 1/64` -/
+theorem eps_poly (ε : ℝ) (h0 : 0 ≤ ε) (h1 : ε ≤ 1/64) :
+    (1 + 2 * ε) ^ 2 * (1 + (1 + 5 * ε) ^ 2) ≤ 2 * (1 + 5 * ε) ^ 2 := by
+  have h2 : ε ^ 2 ≤ ε / 64 := by nlinarith
+  have h3 : ε ^ 3 ≤ ε / 4096 := by nlinarith
+  have h4 : ε ^ 4 ≤ ε / 262144 := by nlinarith
+  nlinarith
+
+/-- **Encoder angle, `c ≥ 3`**: from the componentwise distances to the angle -/
+theorem encoder_angle_of_facts (c : ℝ) (hc : 3 ≤ c) (ε : ℝ) (hε0 : 0 ≤ ε) (hε : ε ≤ 1/64)
+    (n1 n2 n3 S : ℝ) (hS : S = |n1| + |n2| + |n3|) (hS0 : 0 < S) (v1 v2 v3 : ℝ)
+    (d1 : |n1 / S * c - v1| ≤ 1/2 + ε) (d2 : |n2 / S * c - v2| ≤ 1/2 + ε)
+    (d3 : |n3 / S * c - v3| ≤ 1 + 2 * ε) :
+    angle (vec3 n1 n2 n3) (vec3 v1 v2 v3) ≤ 3 / c * (1 + 5 * ε) := by
+  have hc0 : 0 < c := by linarith
+  have hp1 : |n1 / S| + |n2 / S| + |n3 / S| = 1 := by
+    rw [abs_div, abs_div, abs_div, abs_of_pos hS0, ← add_div, ← add_div, ← hS]
+    exact div_self (ne_of_gt hS0)
+  set h := (1/2 + ε) / c with hh
+  have q : ∀ (nn vv B : ℝ), |nn / S * c - vv| ≤ B → |nn / S - vv / c| ≤ B / c := by
+    intro nn vv B hB
+    have : nn / S - vv / c = (nn / S * c - vv) / c := by field_simp
+    rw [this, abs_div, abs_of_pos hc0]
+    exact div_le_div_of_nonneg_right hB hc0.le
+  have q1 := q n1 v1 _ d1
+  have q2 := q n2 v2 _ d2
+  have q3 := q n3 v3 _ d3
+  have hE : (n1 / S - v1 / c) ^ 2 + (n2 / S - v2 / c) ^ 2 + (n3 / S - v3 / c) ^ 2 ≤ 6 * h ^ 2 := by
+    have e1 : (n1 / S - v1 / c) ^ 2 ≤ h ^ 2 := by
+      rw [← sq_abs]; exact pow_le_pow_left₀ (abs_nonneg _) q1 2
+    have e2 : (n2 / S - v2 / c) ^ 2 ≤ h ^ 2 := by
+      rw [← sq_abs]; exact pow_le_pow_left₀ (abs_nonneg _) q2 2
+    have e3 : (n3 / S - v3 / c) ^ 2 ≤ (2 * h) ^ 2 := by
+      rw [← sq_abs]
+      refine pow_le_pow_left₀ (abs_nonneg _) (le_trans q3 ?_) 2
+      rw [hh]; apply le_of_eq; field_simp
+    nlinarith
+  have hh0 : 0 ≤ h := by rw [hh]; positivity
+  have hhb : h ≤ (1/2 + 1/64) / 3 := by
+    rw [hh, div_le_div_iff₀ hc0 (by norm_num)]; nlinarith
+  have hβ : 0 < 3 / c * (1 + 5 * ε) := by positivity
+  have hβ1 : (3 / c * (1 + 5 * ε)) ^ 2 ≤ (1 + 5 * ε) ^ 2 := by
+    have : 3 / c ≤ 1 := by rw [div_le_one hc0]; exact hc
+    have h3 : 0 ≤ 3 / c := by positivity
+    have : 3 / c * (1 + 5 * ε) ≤ 1 * (1 + 5 * ε) := mul_le_mul_of_nonneg_right this (by linarith)
+    exact pow_le_pow_left₀ (by positivity) (by linarith) 2
+  have hcond : 3 * (6 * h ^ 2) * (1 + (3 / c * (1 + 5 * ε)) ^ 2) ≤ (3 / c * (1 + 5 * ε)) ^ 2 := by
+    have hp := eps_poly ε hε0 hε
+    have e18 : 3 * (6 * h ^ 2) = (9 / (2 * c ^ 2)) * (1 + 2 * ε) ^ 2 := by rw [hh]; field_simp; ring
+    have eβ : (3 / c * (1 + 5 * ε)) ^ 2 = (9 / c ^ 2) * (1 + 5 * ε) ^ 2 := by
+      rw [mul_pow, div_pow]; norm_num
+    rw [e18]
+    have hk : 0 ≤ 9 / (2 * c ^ 2) := by positivity
+    have s1 : (9 / (2 * c ^ 2)) * (1 + 2 * ε) ^ 2 * (1 + (3 / c * (1 + 5 * ε)) ^ 2)
+        ≤ (9 / (2 * c ^ 2)) * ((1 + 2 * ε) ^ 2 * (1 + (1 + 5 * ε) ^ 2)) := by
+      rw [mul_assoc]
+      refine mul_le_mul_of_nonneg_left ?_ hk
+      exact mul_le_mul_of_nonneg_left (by linarith) (by positivity)
+    have s2 : (9 / (2 * c ^ 2)) * ((1 + 2 * ε) ^ 2 * (1 + (1 + 5 * ε) ^ 2))
+        ≤ (9 / (2 * c ^ 2)) * (2 * (1 + 5 * ε) ^ 2) := mul_le_mul_of_nonneg_left hp hk
+    have s3 : (9 / (2 * c ^ 2)) * (2 * (1 + 5 * ε) ^ 2) = (9 / c ^ 2) * (1 + 5 * ε) ^ 2 := by
+      field_simp
+    calc _ ≤ _ := s1
+      _ ≤ _ := s2
+      _ = _ := s3
+      _ = _ := eβ.symm
+  obtain ⟨hang, _⟩ := angle_close _ _ _ _ _ _ (6 * h ^ 2) _ hp1 hE (by nlinarith) hβ hcond
+  have en : vec3 n1 n2 n3 = S • vec3 (n1 / S) (n2 / S) (n3 / S) := by
+    rw [← vec3_smul]; congr 1 <;> field_simp
+  have ev : vec3 v1 v2 v3 = c • vec3 (v1 / c) (v2 / c) (v3 / c) := by
+    rw [← vec3_smul]; congr 1 <;> field_simp
+  rw [en, ev, angle_smul_left_of_pos _ _ hS0, angle_smul_right_of_pos _ _ hc0]
+  exact hang
+
+/-- **Encoder angle, `c = 1` (`q = 2`)**: the integer vector is one of the six axis vectors and
+    `n·v ≥ −2ε|n|₁`, hence the angle is at most `π/2 + 8ε` -/
+theorem encoder_angle_q2_of_facts (ε : ℝ) (hε0 : 0 ≤ ε) (hε : ε ≤ 1/64)
+    (n1 n2 n3 S : ℝ) (hS : S = |n1| + |n2| + |n3|) (hS0 : 0 < S) (v1 v2 v3 : Int)
+    (hv : iabs v1 + iabs v2 + iabs v3 = 1)
+    (d1 : |n1 / S * 1 - v1| ≤ 1/2 + ε) (d2 : |n2 / S * 1 - v2| ≤ 1/2 + ε)
+    (d3 : |n3 / S * 1 - v3| ≤ 1 + 2 * ε) :
+    angle (vec3 n1 n2 n3) (vec3 v1 v2 v3) ≤ Real.pi / 2 + 8 * ε := by
+  have hp1 : |n1 / S| + |n2 / S| + |n3 / S| = 1 := by
+    rw [abs_div, abs_div, abs_div, abs_of_pos hS0, ← add_div, ← add_div, ← hS]
+    exact div_self (ne_of_gt hS0)
+  rw [mul_one] at d1 d2 d3
+  obtain ⟨a1, a2⟩ := abs_le.mp d1
+  obtain ⟨b1, b2⟩ := abs_le.mp d2
+  obtain ⟨c1, c2⟩ := abs_le.mp d3
+  set p1 := n1 / S
+  set p2 := n2 / S
+  set p3 := n3 / S
+  have hP := norm_sq_ge_third_R p1 p2 p3 hp1
+  -- the six axis vectors
+  have hcases : (v1 = 1 ∨ v1 = -1) ∧ v2 = 0 ∧ v3 = 0 ∨ v1 = 0 ∧ (v2 = 1 ∨ v2 = -1) ∧ v3 = 0 ∨
+      v1 = 0 ∧ v2 = 0 ∧ (v3 = 1 ∨ v3 = -1) := by
+    unfold iabs at hv
+    (repeat' split at hv) <;> omega
+  have hG : ((v1:ℝ)) ^ 2 + (v2:ℝ) ^ 2 + (v3:ℝ) ^ 2 = 1 := by
+    rcases hcases with ⟨h | h, h2, h3⟩ | ⟨h1, h | h, h3⟩ | ⟨h1, h2, h | h⟩ <;> simp_all
+  have hD : -(2 * ε) ≤ p1 * v1 + p2 * v2 + p3 * v3 := by
+    rcases hcases with ⟨h | h, h2, h3⟩ | ⟨h1, h | h, h3⟩ | ⟨h1, h2, h | h⟩ <;>
+      simp_all <;> linarith
+  have en : vec3 n1 n2 n3 = S • vec3 p1 p2 p3 := by
+    rw [← vec3_smul]; congr 1 <;> (simp only [p1, p2, p3]; field_simp)
+  rw [en, angle_smul_left_of_pos _ _ hS0, angle_vec3, hG, Real.sqrt_one, mul_one]
+  -- X ≥ −4ε
+  have hsq : (1:ℝ)/2 ≤ Real.sqrt (p1 ^ 2 + p2 ^ 2 + p3 ^ 2) := by
+    have h14 : ((1:ℝ)/2) ^ 2 ≤ p1 ^ 2 + p2 ^ 2 + p3 ^ 2 := by nlinarith
+    calc (1:ℝ)/2 = Real.sqrt (((1:ℝ)/2) ^ 2) := (Real.sqrt_sq (by norm_num)).symm
+      _ ≤ _ := Real.sqrt_le_sqrt h14
+  have hsqpos : 0 < Real.sqrt (p1 ^ 2 + p2 ^ 2 + p3 ^ 2) := by linarith
+  have hX : -(4 * ε) ≤ (p1 * v1 + p2 * v2 + p3 * v3) / Real.sqrt (p1 ^ 2 + p2 ^ 2 + p3 ^ 2) := by
+    rw [le_div_iff₀ hsqpos]
+    nlinarith
+  have h8 : 0 ≤ 8 * ε := by linarith
+  have hpi := Real.two_le_pi
+  have hpi4 := Real.pi_le_four
+  have hsin : 4 * ε ≤ Real.sin (8 * ε) := by
+    have := Real.mul_le_sin h8 (by linarith)
+    have h2pi : (1:ℝ)/2 ≤ 2 / Real.pi := by rw [le_div_iff₀ (by linarith)]; linarith
+    nlinarith
+  have hcos : Real.cos (Real.pi / 2 + 8 * ε) ≤
+      (p1 * v1 + p2 * v2 + p3 * v3) / Real.sqrt (p1 ^ 2 + p2 ^ 2 + p3 ^ 2) := by
+    rw [add_comm, Real.cos_add_pi_div_two]; linarith
+  have := Real.arccos_le_arccos hcos
+  rwa [Real.arccos_cos (by linarith) (by linarith)] at this
+
 end Octa
 end Draco
